@@ -8,6 +8,7 @@ package main
 import (
 	"fmt"
 	"hash/fnv"
+	"runtime"
 	"strings"
 )
 
@@ -135,6 +136,9 @@ var refEnv *env
 
 //go:norace
 func curEnv() *env {
+	if freeMode {
+		return freeEnvOf()
+	}
 	if t := current; t != nil {
 		return t.env
 	}
@@ -146,6 +150,10 @@ func newEnv(plan *Plan, t *task) *env {
 }
 
 func (e *env) yield(kind int) {
+	if freeMode {
+		runtime.Gosched()
+		return
+	}
 	if e.t != nil && e.shadow == 0 {
 		if kind == yCallback {
 			e.fired(fCallbackBlocks)
